@@ -417,7 +417,9 @@ def r5(ck, F, rid="C01.R5"):
         if ok:
             names = [c[1].get("method") for c in ps[0].calls if c[1].get("method")]
             order_ok = [n for n in names if n in ("retain", "for_each", "set_max")] == ["retain", "for_each", "set_max"]
-            sm = [c for c in ps[0].calls if c[1].get("method") == "set_max"][0]
+            sms = [c for c in ps[0].calls if c[1].get("method") == "set_max"]
+            order_ok = order_ok and len(sms) == 1
+            sm = sms[0] if sms else None
             init = [s for i, j, s in ri.stmts() if s["k"] == "assign" and "use" in s["rv"] and "const" in s["rv"]["use"]
                     and s["rv"]["use"]["const"].get("def") == "tracing_core::metadata::LevelFilter::OFF"]
             ok = order_ok and bool(init)
